@@ -1,4 +1,5 @@
 import PfVerif.Proofs.C17
+import PfVerif.Proofs.C17Real
 import PfVerif.Generated.Tables
 /-! # C17 — cell indices, coordinates, distances and areas are mutually consistent
 
@@ -476,5 +477,145 @@ theorem sphere_sum_global (R2 pi180 pi : Rat) (sinD : Rat → Rat) (t : Aff) (hd
 -- a 4 x 8 global grid of 45-degree cells with the (rational) sine table sin(l) := l/90 on the edges
 example : areaGrid (cellareaM 1 (1/60) (fun l => l / 90)) ⟨45, 0, -180, 0, -45, 90⟩ 4 8 true false (some 1) =
       .ok [3/8, 3/8, 3/8, 3/8] ∧ areaTotal 8 [3/8, 3/8, 3/8, 3/8] = 4 * 3 * 1 := by decide +kernel
+
+/-! ## 6. over ℝ: the real sine, π and `Real.sqrt` (Mathlib)
+
+Sections 1-5 treat sine, π, `degree_metres_x/y` and `math.hypot` as parameters of a rational model.  Here
+the same formulas are instantiated with Mathlib's `Real.sin`, `Real.pi`, `Real.cos`, `Real.sqrt`
+(definitions in `Proofs/C17Real.lean`: `radians x = x·π/180`, `cellareaR` = `gis_utils.cellarea` verbatim,
+`rowLat yoff yres r = yoff + (r+½)·yres` = the row latitude of section 1, `hypotR p q = √(p²+q²)`,
+`dmyR/dmxR` = `degree_metres_y/x` verbatim). -/
+
+/-- **the rational model of `cellarea` and the real `cellarea` are one formula**: `cellareaM` is
+`cellareaG` restricted to rationals (for any sine table `sinD` and any extension `s` of it), and
+`cellareaR` is `cellareaG` with `R²`, `π/180` and `sin ∘ radians`. -/
+theorem cellarea_model_real (R2 pi180 : ℚ) (sinD : ℚ → ℚ) (s : ℝ → ℝ) (hs : ∀ q : ℚ, s q = sinD q)
+    (lat xres yres : ℚ) (R lat' xres' yres' : ℝ) :
+    ((cellareaM R2 pi180 sinD lat xres yres : ℚ) : ℝ) = cellareaG R2 pi180 s lat xres yres ∧
+    cellareaR R lat' xres' yres' =
+      cellareaG (R ^ 2) (Real.pi / 180) (fun d => Real.sin (radians d)) lat' xres' yres' :=
+  ⟨cellareaM_cast R2 pi180 sinD s hs lat xres yres, cellareaR_eq R lat' xres' yres'⟩
+
+/-- the rows of the model's `area_grid(latlon=True)` are `cellareaG` at `rowLat yoff yres r` with the
+transform's resolutions - the summand of `sphere_sum_real` -/
+theorem area_rows_real (R2 pi180 fac : ℚ) (sinD : ℚ → ℚ) (s : ℝ → ℝ) (hs : ∀ q : ℚ, s q = sinD q)
+    (t : Aff) (hd : t.d = 0) (nrow ncol : Nat) (rows : List ℚ)
+    (h : areaGrid (cellareaM R2 pi180 sinD) t nrow ncol true false (some fac) = .ok rows)
+    (r : Nat) (hr : r < nrow) :
+    ∃ v, rows[r]? = some v ∧
+      (v : ℝ) = cellareaG R2 pi180 s (rowLat t.f t.e r) t.a t.e / fac := by
+  rw [area_geo_at_centre] at h
+  injection h with h
+  subst h
+  refine ⟨cellareaM R2 pi180 sinD (xyM t centre (r : Int) (0 : Int)).2 t.a t.e / fac,
+    by simp [List.getElem?_map, List.getElem?_range hr], ?_⟩
+  have hlat : (xyM t centre (r : Int) (0 : Int)).2 = t.f + ((r : ℚ) + 1 / 2) * t.e := by
+    simp only [xy_app, centre, Aff.app, hd]
+    push_cast; ring
+  rw [hlat, Rat.cast_div, cellareaM_cast R2 pi180 sinD s hs]
+  simp only [rowLat]
+  push_cast; rfl
+
+/-- **the sphere, over ℝ**: for every `nrow, ncol, xres, yres` with `ncol·|xres| = 360` and
+`nrow·|yres| = 180`, rows running from latitude 90 to -90 (north-up, `yres < 0`, `yoff = 90`) or from -90 to
+90 (south-up), the sum over all cells of `cellarea` - with the real sine and `radians` exactly as in
+`gis_utils.cellarea`, evaluated at each row's centre latitude - is `4·π·R²`. -/
+theorem sphere_sum_real_global (R xres yres yoff : ℝ) (nrow ncol : ℕ)
+    (hcols : (ncol : ℝ) * |xres| = 360) (hrows : (nrow : ℝ) * |yres| = 180)
+    (htop : (yres < 0 ∧ yoff = 90) ∨ (0 < yres ∧ yoff = -90)) :
+    ∑ r ∈ Finset.range nrow, ∑ _c ∈ Finset.range ncol, cellareaR R (rowLat yoff yres r) xres yres =
+      4 * Real.pi * R ^ 2 :=
+  sphere_sum_real R xres yres yoff nrow ncol hcols hrows htop
+
+/-- any geographic raster: the cell areas telescope to `R²·radians(ncol·|xres|)·(sin top − sin bottom)` -/
+theorem sphere_sum_real_telescope (R xres yres yoff : ℝ) (nrow ncol : ℕ) :
+    ∑ r ∈ Finset.range nrow, ∑ _c ∈ Finset.range ncol, cellareaR R (rowLat yoff yres r) xres yres =
+      R ^ 2 * radians ((ncol : ℝ) * |xres|) *
+        (if yres < 0 then Real.sin (radians yoff) - Real.sin (radians (yoff + nrow * yres))
+         else Real.sin (radians (yoff + nrow * yres)) - Real.sin (radians yoff)) :=
+  sphere_sum_real_general R xres yres yoff nrow ncol
+
+-- non-vacuity: a 1-degree global grid (180 x 360) meets the hypotheses
+example : ((360 : ℕ) : ℝ) * |(1 : ℝ)| = 360 ∧ ((180 : ℕ) : ℝ) * |(-1 : ℝ)| = 180 ∧ ((-1 : ℝ) < 0 ∧ (90 : ℝ) = 90) := by
+  norm_num
+example (R : ℝ) : ∑ r ∈ Finset.range 180, ∑ _c ∈ Finset.range 360, cellareaR R (rowLat 90 (-1) r) 1 (-1) =
+    4 * Real.pi * R ^ 2 :=
+  sphere_sum_real_global R 1 (-1) 90 180 360 (by norm_num) (by norm_num) (Or.inl ⟨by norm_num, rfl⟩)
+
+/-- **`IsHypot` is `Real.sqrt`**: a rational `d` satisfies the model's `IsHypot d p q` iff it is
+`√(p² + q²)`; over ℝ the predicate has exactly one solution, `hypotR p q`. -/
+theorem hypot_is_sqrt (d p q : ℚ) (d' p' q' : ℝ) :
+    (IsHypot d p q ↔ (d : ℝ) = Real.sqrt ((p : ℝ) ^ 2 + (q : ℝ) ^ 2)) ∧
+    (IsHypotR d' p' q' ↔ d' = Real.sqrt (p' ^ 2 + q' ^ 2)) :=
+  ⟨isHypot_cast d p q, isHypotR_iff d' p' q'⟩
+
+/-- **distance over ℝ = Euclidean distance of the two centres** (projected, any two cells): the real value
+`√(leg₁² + leg₂²)` of the model's legs is `√((x₁−x₀)² + (y₁−y₀)²)` for the centre coordinates of section 1 -/
+theorem distance_centres_real (dmy dmx : ℚ → ℚ) (t : Aff) (ncol : Nat) (i j : Nat) :
+    distR (distLegs dmy dmx t ncol false i j) = Real.sqrt ((specCentreDist2 t ncol i j : ℚ) : ℝ) := by
+  have h := distance_centres dmy dmx t ncol i j
+  simp only [dist2] at h
+  rw [← h]
+  simp only [distR, hypotR]; push_cast; ring_nf
+
+/-- **diagonal step over ℝ**: the projected distance between diagonal neighbours is `√(xres² + yres²)` -/
+theorem distance_diag_real (dmy dmx : ℚ → ℚ) (t : Aff) (ncol : Nat) (i j : Nat)
+    (hrow : absI (((j / ncol : Nat) : Int) - ((i / ncol : Nat) : Int)) = 1)
+    (hcol : absI (((j % ncol : Nat) : Int) - ((i % ncol : Nat) : Int)) = 1) :
+    distR (distLegs dmy dmx t ncol false i j) = Real.sqrt ((t.a : ℝ) ^ 2 + (t.e : ℝ) ^ 2) := by
+  simp only [distR, distLegs, hrow, hcol, Bool.false_eq_true, if_false, hypotR]
+  push_cast; ring_nf
+
+/-- **east–west / north–south steps over ℝ**: `|xres|`, `|yres|` -/
+theorem distance_ew_real (dmy dmx : ℚ → ℚ) (t : Aff) (ncol : Nat) (i j : Nat)
+    (hrow : i / ncol = j / ncol) (hcol : absI (((j % ncol : Nat) : Int) - ((i % ncol : Nat) : Int)) = 1) :
+    distR (distLegs dmy dmx t ncol false i j) = |(t.a : ℝ)| := by
+  have h0 : absI 0 = 0 := rfl
+  simp only [distR, distLegs, hrow, hcol, Int.sub_self, h0, Bool.false_eq_true, if_false]
+  push_cast
+  rw [mul_zero, hypotR_zero_left, mul_one]
+
+theorem distance_ns_real (dmy dmx : ℚ → ℚ) (t : Aff) (ncol : Nat) (i j : Nat)
+    (hcol : i % ncol = j % ncol) (hrow : absI (((j / ncol : Nat) : Int) - ((i / ncol : Nat) : Int)) = 1) :
+    distR (distLegs dmy dmx t ncol false i j) = |(t.e : ℝ)| := by
+  have h0 : absI 0 = 0 := rfl
+  simp only [distR, distLegs, hrow, hcol, Int.sub_self, h0, Bool.false_eq_true, if_false]
+  push_cast
+  rw [mul_zero, hypotR_zero_right, mul_one]
+
+/-- **geographic distance over ℝ**: the real length of the model's legs is the hypotenuse of the metric
+legs at the mean latitude of the two centres -/
+theorem distance_geo_real (dmy dmx : ℚ → ℚ) (t : Aff) (ncol : Nat) (i j : Nat) :
+    distR (distLegs dmy dmx t ncol true i j) = distR (specGeoLegs dmy dmx t ncol i j) := by
+  have h := distance_geo dmy dmx t ncol i j
+  simp only [dist2] at h
+  simp only [distR]
+  apply hypotR_congr
+  exact_mod_cast h
+
+-- 3 x 4 cells: the real diagonal is √25 = 5
+example : distR (distLegs id id ⟨3, 0, 0, 0, -4, 0⟩ 5 false 7 13) = 5 := by
+  rw [distance_diag_real _ _ _ _ _ _ (by decide +kernel) (by decide +kernel)]
+  rw [show (((⟨3, 0, 0, 0, -4, 0⟩ : Aff).a : ℚ) : ℝ) ^ 2 + (((⟨3, 0, 0, 0, -4, 0⟩ : Aff).e : ℚ) : ℝ) ^ 2 = 5 ^ 2 by
+    norm_num]
+  exact Real.sqrt_sq (by norm_num)
+
+/-- **`degree_metres_y/x` as real functions**: both are even in the latitude (the two hemispheres are
+treated alike), a degree of latitude has positive length everywhere, a degree of longitude has
+non-negative length for `|lat| ≤ 90` and length 0 at the poles. -/
+theorem degree_metres_real (lat : ℝ) :
+    dmyR (-lat) = dmyR lat ∧ dmxR (-lat) = dmxR lat ∧ 0 < dmyR lat ∧ (|lat| ≤ 90 → 0 ≤ dmxR lat) ∧
+    dmxR 90 = 0 ∧ dmxR (-90) = 0 :=
+  ⟨dmyR_even lat, dmxR_even lat, dmyR_pos lat, dmxR_nonneg lat, dmxR_pole.1, dmxR_pole.2⟩
+
+/-- hence the metric legs of `distance_geo` need no absolute value around the degree lengths: an
+east–west step at latitude `φ` (`|φ| ≤ 90`) is `degree_metres_x(φ)·|Δx|` long, a north–south step
+`degree_metres_y(φ)·|Δy|`, and both are the same at `-φ`. -/
+theorem geo_step_lengths_real (lat dx dy : ℝ) (h : |lat| ≤ 90) :
+    hypotR (dmyR lat * 0) (dmxR lat * dx) = dmxR lat * |dx| ∧
+    hypotR (dmyR lat * dy) (dmxR lat * 0) = dmyR lat * |dy| ∧
+    hypotR (dmyR (-lat) * dy) (dmxR (-lat) * dx) = hypotR (dmyR lat * dy) (dmxR lat * dx) := by
+  refine ⟨geo_step_ew lat dx h, geo_step_ns lat dy, ?_⟩
+  rw [dmyR_even, dmxR_even]
 
 end Pf.C17
